@@ -292,5 +292,79 @@ C19(T) ==
   \cup { V("C19", "sequence-number-not-the-next-provider-value", k, Kf(T), "", "") :
          k \in { k \in DOMAIN trans : trans[k].tid.seq # (T.cfg.seq0 + k - 1) % SeqModT(T) } }
 
-Violations(T) == C01(T) \cup C02(T) \cup C03(T) \cup C10(T) \cup C07(T) \cup C08(T) \cup C19(T)
+\* ===== C05: destination file = write model of the accepted File Data PDUs =====
+\* independent write model: tree = set of [p, dir, d]; a File Data PDU counts as accepted iff the call that received it
+\* raised nothing and issued the File-Segment-Recv indication for it (and the write was not rejected by the environment)
+WZeros(n) == [i \in 1..n |-> 0]
+WWrite(data, off, d) ==
+  IF d = <<>> THEN data
+  ELSE LET base == IF Len(data) < off THEN data \o WZeros(off - Len(data)) ELSE data
+           n == PMax(Len(base), off + Len(d))
+       IN [i \in 1..n |-> IF i > off /\ i <= off + Len(d) THEN d[i - off] ELSE base[i]]
+WHasDir(tree, p) == \E f \in tree : f.p = p /\ f.dir
+WFile(tree, p) == CHOOSE f \in tree : f.p = p /\ ~f.dir
+WHasFile(tree, p) == \E f \in tree : f.p = p /\ ~f.dir
+WPut(tree, p, d) == { f \in tree : f.p # p } \cup { [p |-> p, dir |-> FALSE, d |-> d] }
+C05Step(m, e) ==
+  LET mds == SelectSeq(e.ind, LAMBDA x : x.k = "metadata_recv" /\ x.dstName # "none")
+      m1 == IF mds # <<>> /\ e.arg.t = "MD" THEN
+               LET p0 == mds[1].dstName
+                   p == IF WHasDir(m.tree, p0) THEN p0 \o "/" \o e.arg.srcBase ELSE p0 IN
+               IF WHasDir(m.tree, p) THEN [m EXCEPT !.path = ""] ELSE [tree |-> WPut(m.tree, p, <<>>), path |-> p]
+            ELSE m
+      acc == e.arg.t = "FD" /\ e.exc = "none" /\ ~e.wrej /\ m1.path # "" /\ WHasFile(m1.tree, m1.path)
+             /\ \E k \in DOMAIN e.ind : e.ind[k].k = "seg_recv" /\ e.ind[k].off = e.arg.off /\ e.ind[k].len = Len(e.arg.data)
+      m2 == IF acc THEN [m1 EXCEPT !.tree = WPut(@, m1.path, WWrite(WFile(m1.tree, m1.path).d, e.arg.off, e.arg.data))] ELSE m1
+      del == \E k \in DOMAIN e.ind : e.ind[k].k = "finished" /\ e.ind[k].fstat = "DISCARDED_DELIBERATELY"
+      m3 == IF del /\ m2.path # "" THEN [m2 EXCEPT !.tree = { f \in @ : f.p # m2.path \/ f.dir }] ELSE m2
+  IN m3
+C05(T) ==
+  IF ~Has(T, "C05") THEN {} ELSE
+  LET ds == SetToSortSeq(OfSide(T, "D"), <)
+      \* fold: acc = [m, bad (set of event indices)]
+      r == FoldLeft(LAMBDA acc, i : LET m2 == C05Step(acc.m, T.ev[i]) IN
+                                    [m |-> m2, bad |-> IF ToSet(T.ev[i].fs) # m2.tree THEN acc.bad \cup {i} ELSE acc.bad],
+                    [m |-> [tree |-> ToSet(T.fs0), path |-> ""], bad |-> {}], ds)
+  IN { V("C05", "destination-tree-differs-from-the-write-model", i, Kf(T), "", "") : i \in r.bad }
+
+\* ===== C06: NAKs request exactly what is missing =====
+Rng(s, e) == { x \in 0..(e - 1) : x >= s }
+C06Step(st0, e) ==
+  LET st == IF e.pre.state = "IDLE" THEN [stored |-> {}, extent |-> 0, md |-> FALSE, eof |-> -1] ELSE st0   \* new transaction
+      ok == e.call = "fsm" /\ e.exc = "none"
+      mdNow == ok /\ e.arg.t = "MD" /\ \E k \in DOMAIN e.ind : e.ind[k].k = "metadata_recv"
+      accFd == ok /\ e.arg.t = "FD" /\ ~e.wrej /\ \E k \in DOMAIN e.ind : e.ind[k].k = "seg_recv" /\ e.ind[k].off = e.arg.off
+  IN [stored |-> IF accFd THEN st.stored \cup Rng(e.arg.off, e.arg.off + Len(e.arg.data)) ELSE st.stored,
+      extent |-> IF ok /\ e.arg.t = "FD" THEN PMax(st.extent, e.arg.off + Len(e.arg.data))
+                 ELSE IF ok /\ e.arg.t = "EOF" THEN PMax(st.extent, e.arg.size) ELSE st.extent,
+      md |-> st.md \/ mdNow,
+      eof |-> IF ok /\ e.arg.t = "EOF" /\ e.arg.cond = "NO_ERROR" /\ st.eof < 0 THEN e.arg.size ELSE st.eof]
+C06Event(T, i, st0, st) ==   \* st0 / st: the observer state before / after event i (requests are computed before the
+                             \* inbound PDU of the same call is stored: "not yet stored when the request was computed")
+  LET e == T.ev[i]
+      naks == SelectSeq(e.out, LAMBDA p : p.t = "NAK")
+      reqsOf(p) == { p.reqs[k] : k \in DOMAIN p.reqs }
+      allReqs == UNION { reqsOf(naks[k]) : k \in DOMAIN naks }
+      segReqs == { r \in allReqs : r # <<0, 0>> }
+      deferredSeq == e.call = "fsm" /\ e.arg.t = "none" /\ st.eof >= 0 /\ naks # <<>> IN
+  { V("C06", "metadata-requested-although-received", i, Kf(T), "", "") : r \in { r \in allReqs : r = <<0, 0>> /\ st0.md } }
+  \cup { V("C06", "request-outside-the-known-extent", i, Kf(T), "", "") : r \in { r \in segReqs : ~(0 <= r[1] /\ r[1] < r[2] /\ r[2] <= st.extent) } }
+  \cup { V("C06", "request-covers-stored-bytes", i, Kf(T), "", "") : r \in { r \in segReqs : r[1] < r[2] /\ Rng(r[1], r[2]) \cap st0.stored # {} } }
+  \cup (IF deferredSeq /\ UNION { Rng(r[1], r[2]) : r \in segReqs } # (Rng(0, st.eof) \ st.stored)
+        THEN {V("C06", "deferred-nak-sequence-not-exactly-the-missing-bytes", i, Kf(T), "", "")} ELSE {})
+  \cup (IF deferredSeq /\ (~st.md) /\ <<0, 0>> \notin allReqs
+        THEN {V("C06", "deferred-nak-sequence-omits-the-missing-metadata", i, Kf(T), "", "")} ELSE {})
+  \cup { V("C06", "nak-scope-does-not-enclose-its-requests", i, Kf(T), "", "") :
+         k \in { k \in DOMAIN naks : deferredSeq /\ \E r \in reqsOf(naks[k]) : r # <<0, 0>> /\ (r[1] < naks[k].sos \/ r[2] > naks[k].eos) } }
+  \cup { V("C06", "nak-pdu-exceeds-max-packet-length", i, Kf(T), "", "") :
+         k \in { k \in DOMAIN naks : deferredSeq /\ naks[k].plen > T.cfg.maxPkt } }
+C06(T) ==
+  IF ~Has(T, "C06") THEN {} ELSE
+  LET ds == SetToSortSeq(OfSide(T, "D"), <)
+      r == FoldLeft(LAMBDA acc, i : LET st2 == C06Step(acc.st, T.ev[i]) IN
+                                    [st |-> st2, v |-> IF T.ev[i].call = "fsm" THEN acc.v \cup C06Event(T, i, IF T.ev[i].pre.state = "IDLE" THEN [stored |-> {}, extent |-> 0, md |-> FALSE, eof |-> -1] ELSE acc.st, st2) ELSE acc.v],
+                    [st |-> [stored |-> {}, extent |-> 0, md |-> FALSE, eof |-> -1], v |-> {}], ds)
+  IN r.v
+
+Violations(T) == C01(T) \cup C02(T) \cup C03(T) \cup C10(T) \cup C07(T) \cup C08(T) \cup C19(T) \cup C05(T) \cup C06(T)
 ====
